@@ -700,7 +700,12 @@ class ComponentProjectionAdjoint(Operator):
         else:
             out.set_zero()
 
-        out[self.index] = x
+        if isinstance(self.index, list):
+            # Accumulate, an index may occur more than once in the list
+            for i, j in enumerate(self.index):
+                out[j] += x[i]
+        else:
+            out[self.index] = x
         return out
 
     @property
